@@ -30,13 +30,23 @@ MUTATORS = {'append', 'extend', 'insert', 'pop', 'remove', 'clear', 'sort', 'rev
 FORBIDDEN_NAMES = {'setattr', 'delattr', 'exec', 'eval', 'globals', 'vars', 'locals', '__import__'}
 
 
+TRANSLATED = []      # (file, lineno, end_lineno, name) of every function body handed to a translator
+
+
+def note_translated(fd):
+    TRANSLATED.append((getattr(fd, '_file', '?'), getattr(fd, 'lineno', 0), getattr(fd, 'end_lineno', 0), getattr(fd, 'name', '?')))
+
+
 class TieError(Exception):
     pass
 
 
 def parse(path):
     with open(path) as f:
-        return ast.parse(f.read(), path)
+        t = ast.parse(f.read(), path)
+    for n in ast.walk(t):
+        n._file = path
+    return t
 
 
 def all_py_files():
@@ -85,6 +95,7 @@ def extract_reducers(cls):
                 if not (isinstance(el, ast.Attribute) and isinstance(el.value, ast.Name) and el.value.id == 'self'):
                     raise TieError('_reducers element shape in %s' % cls.name)
                 names.append(el.attr)
+            note_translated(m)
             return names
     return None
 
@@ -509,6 +520,7 @@ class Translator:
         self.fail('statement', s)
 
     def function(self, fd):
+        note_translated(fd)
         if getattr(fd, 'decorator_list', None):
             self.fail('decorated function', fd)
         a = fd.args
@@ -561,6 +573,7 @@ def generate_math():
                         if not ok:
                             raise TieError('_value_formula of %s is not `return mf.f(*inner_values)`' % cls.name)
                         value_star.append((cls.name, body[0].value.func.attr))
+                        note_translated(m)
                     else:
                         tr = Translator('%s._value_formula' % cls.name)
                         lines.append('Definition gen_value_%s : pfun := %s.' % (cls.name, tr.function(m)))
@@ -772,6 +785,7 @@ class SymTranslator:
         self.fail('statement', s)
 
     def function(self, fd, is_method=True):
+        note_translated(fd)
         if getattr(fd, 'decorator_list', None):
             self.fail('decorated function', fd)
         a = fd.args
@@ -946,6 +960,7 @@ class OrchTranslator:
         self.fail('statement', s)
 
     def function(self, fd):
+        note_translated(fd)
         if getattr(fd, 'decorator_list', None):
             self.fail('decorated function', fd)
         a = fd.args
@@ -1148,6 +1163,7 @@ class ObjTranslator:
         self.fail('statement', st)
 
     def function(self, fd):
+        note_translated(fd)
         if getattr(fd, 'decorator_list', None):
             self.fail('decorated function', fd)
         a = fd.args
@@ -1266,6 +1282,7 @@ class CacheTranslator:
         self.fail('statement', st)
 
     def function(self, fd):
+        note_translated(fd)
         if getattr(fd, 'decorator_list', None):
             self.fail('decorated function', fd)
         a = fd.args
@@ -1454,6 +1471,7 @@ class RouteTranslator:
         self.fail('statement', st)
 
     def function(self, fd, is_method):
+        note_translated(fd)
         if getattr(fd, 'decorator_list', None):
             self.fail('decorated function', fd)
         a = fd.args
@@ -1635,6 +1653,7 @@ class StepTranslator:
         self.fail('statement', st)
 
     def function(self, fd):
+        note_translated(fd)
         if getattr(fd, 'decorator_list', None):
             self.fail('decorated function', fd)
         a = fd.args
@@ -1806,6 +1825,7 @@ class CtorTranslator:
         self.fail('statement', st)
 
     def function(self, fd, is_method=True):
+        note_translated(fd)
         if getattr(fd, 'decorator_list', None):
             self.fail('decorated function', fd)
         a = fd.args
@@ -1855,6 +1875,40 @@ def generate_ctor():
         if isinstance(node, ast.FunctionDef) and node.name in ('is_integer', 'integer_from_integral_float', 'is_even', 'is_odd'):
             tr = CtorTranslator('utilities.%s' % node.name, '')
             lines.append('Definition gen_ctor_fn_%s : cfun := %s.' % (node.name, tr.function(node, False)))
+    # the two constructors that only store what they are given: Expression.__init__ (variable-name set and the
+    # two memo flags, both False) and Point.__init__ (the keyword dictionary itself)
+    plain = []
+    for rel, cls in ((os.path.join('base_expression', 'expression.py'), 'Expression'), ('point.py', 'Point')):
+        t = parse(os.path.join(SRC, '_private', rel))
+        for node in t.body:
+            if isinstance(node, ast.ClassDef) and node.name == cls:
+                for m in methods_of(node):
+                    if m.name == '__init__':
+                        if m.decorator_list or m.args.defaults or m.args.kwonlyargs or m.args.vararg:
+                            raise TieError('%s.__init__: signature' % cls)
+                        sig = [a.arg for a in m.args.posonlyargs] + [a.arg for a in m.args.args] + \
+                              (['**' + m.args.kwarg.arg] if m.args.kwarg else [])
+                        stores = []
+                        for st in m.body:
+                            if isinstance(st, ast.Expr) and isinstance(st.value, ast.Constant):
+                                continue
+                            if isinstance(st, ast.AnnAssign) and st.value is None:
+                                continue
+                            ok = (isinstance(st, ast.Assign) and len(st.targets) == 1 and isinstance(st.targets[0], ast.Attribute)
+                                  and isinstance(st.targets[0].value, ast.Name) and st.targets[0].value.id == 'self'
+                                  and ((isinstance(st.value, ast.Name)) or
+                                       (isinstance(st.value, ast.Constant) and isinstance(st.value.value, bool))))
+                            if not ok:
+                                raise TieError('%s.__init__: statement %s' % (cls, ast.dump(st)[:120]))
+                            stores.append((st.targets[0].attr, st.value.id if isinstance(st.value, ast.Name) else repr(st.value.value)))
+                        plain.append((cls, sig, stores))
+                        note_translated(m)
+    if [c for c, _s, _t in plain] != ['Expression', 'Point']:
+        raise TieError('plain constructors not found')
+    lines.append('')
+    lines.append('Definition gen_plain_inits : list (string * (list string * list (string * string))) := ' + coq_list(
+        ['(%s, (%s, %s))' % (coq_str(c), coq_list([coq_str(x) for x in sig]),
+                             coq_list(['(%s, %s)' % (coq_str(f), coq_str(v)) for f, v in stores])) for c, sig, stores in plain]) + '.')
     lines.append('')
     lines.append('Definition gen_ctor_defaults : list (string * list string) := ' +
                  coq_list(['(%s, %s)' % (coq_str(c), coq_list([coq_str(d) for d in ds])) for c, ds in defaults]) + '.')
@@ -1924,6 +1978,7 @@ def generate_symrev():
                         if len(body) == 1 and isinstance(body[0], ast.Raise):
                             continue
                         tr = SymRevTranslator('%s._compute_synthetic_partials' % node.name)
+                        note_translated(m)
                         lines.append('Definition gen_symrev_%s : vfun := %s.' % (node.name, tr.vfunction(m)))
                         owners.append(node.name)
     lines.append('')
@@ -2003,6 +2058,7 @@ class AccTranslator:
         self.fail('statement', st)
 
     def function(self, fd):
+        note_translated(fd)
         if getattr(fd, 'decorator_list', None):
             self.fail('decorated function', fd)
         a = fd.args
@@ -2036,6 +2092,7 @@ def generate_acc():
                     if not ok:
                         raise TieError('__init__ of %s is not a single `self._x = {}`' % node.name)
                     inits.append((node.name, body[0].targets[0].attr))
+                    note_translated(m)
                 elif not (m.name.startswith('__') and m.name.endswith('__')):
                     raise TieError('unexpected method %s.%s' % (node.name, m.name))
     lines.append('')
@@ -2153,6 +2210,7 @@ class UtilTranslator:
         self.fail('statement', st)
 
     def function(self, fd):
+        note_translated(fd)
         if getattr(fd, 'decorator_list', None):
             self.fail('decorated function', fd)
         a = fd.args
@@ -2224,6 +2282,7 @@ class RebuildTranslator:
         self.fail('expression', e)
 
     def function(self, fd, decorators=()):
+        note_translated(fd)
         got = [ast.unparse(d) for d in getattr(fd, 'decorator_list', [])]
         if got != list(decorators):
             self.fail('decorators %r' % (got,), fd)
@@ -2341,6 +2400,7 @@ class EntryTranslator:
         self.fail('expression', e)
 
     def function(self, fd):
+        note_translated(fd)
         if getattr(fd, 'decorator_list', None):
             self.fail('decorated function', fd)
         a = fd.args
